@@ -67,8 +67,14 @@ def _observe(world):
     except Exception as e:  # pylint: disable=broad-except
       calls[sel] = 'RAISED %s' % type(e).__name__
   obs['calls_with_defaults'] = calls
-  obs['operative_after_calls'] = gin.operative_config_str(show_provenance=True)
-  obs['config_after_calls'] = gin.config_str(show_provenance=True)
+  # (like the observables above: an exception is an observation, compared between the two worlds - whether config_str may
+  # raise at all is C06's subject, not C20's)
+  for name, fn in (('operative_after_calls', lambda: gin.operative_config_str(show_provenance=True)),
+                   ('config_after_calls', lambda: gin.config_str(show_provenance=True))):
+    try:
+      obs[name] = fn()
+    except Exception as e:  # pylint: disable=broad-except
+      obs[name] = 'RAISED %s: %s' % (type(e).__name__, e)
   return obs
 
 
